@@ -3132,6 +3132,11 @@ func (te *TemplateEngine) createImageParagraph(imageData *TemplateImageData, doc
 			Position:  ImagePositionInline,
 			Alignment: AlignCenter,
 		}
+	} else {
+		// 使用调用方配置的副本：下面的 SetImageAltText/SetImageTitle 会写入配置，
+		// 不能改动调用方的数据（同一份数据可能被多次、并发渲染）
+		configCopy := *config
+		config = &configCopy
 	}
 
 	// 添加图片到文档
